@@ -81,6 +81,10 @@ def plan(tier, seed):
     specs.append({'name': 'sweep', 'configs': [(5, 3), (7, 15), (2, 6)], 'n': 1, 'debug_logging': True})
     specs.append({'name': 'random', 'lo': 0, 'hi': 200, 'debug_logging': True})
     specs.append({'name': 'tcp', 'lo': 0, 'hi': 8, 'debug_logging': True})
+    # ... and in an interpreter started with -O (vf/runner.py)
+    specs.append({'name': 'sweep', 'configs': [(6, 5), (7, 15), (1, 9)], 'n': 1, 'optimize': True})
+    specs.append({'name': 'random', 'lo': 200, 'hi': 400, 'optimize': True})
+    specs.append({'name': 'tcp', 'lo': 8, 'hi': 16, 'optimize': True})
     return specs
 
 
